@@ -42,7 +42,7 @@ GAP_FACTORS = [0.0, 1e-12, 1e-9, 1e-7, 1e-6, 5e-6, 2e-5, 1e-4, 1.05e-3, 2e-3,
 
 @st.composite
 def gap_scene(draw, kindA, kindB, gaps=None, rot_classes=None, margin=False,
-              size_lo=1e-2, size_hi=1e2, shared_rotation=None, **kw):
+              size_lo=1e-2, size_hi=1e2, shared_rotation=None, depth_fractions=None, **kw):
     sa = draw(specs(kindA, rot_classes=rot_classes, margin=margin,
                     size_lo=size_lo, size_hi=size_hi, **kw))
     sb = draw(specs(kindB, rot_classes=rot_classes, margin=margin,
@@ -74,7 +74,7 @@ DEPTH_FRACTIONS = [1.0, 0.5, 0.1, 1e-2, 2e-3]
 
 @st.composite
 def deep_scene(draw, kindA, kindB, rot_classes=None, margin=False,
-               size_lo=1e-2, size_hi=1e2, **kw):
+               size_lo=1e-2, size_hi=1e2, depth_fractions=None, gaps=None, **kw):
     """A and B share a point c that is at least `depth` inside both (for a
     flat partner: c is a point of the flat set, depth refers to the solid)."""
     sa = draw(specs(kindA, rot_classes=rot_classes, margin=margin,
@@ -93,8 +93,8 @@ def deep_scene(draw, kindA, kindB, rot_classes=None, margin=False,
     if mode in ("centre", "identical"):
         fa = fb = 0.0
     else:
-        fa = 1.0 - draw(st.sampled_from(DEPTH_FRACTIONS))
-        fb = 1.0 - draw(st.sampled_from(DEPTH_FRACTIONS))
+        fa = 1.0 - draw(st.sampled_from(depth_fractions or DEPTH_FRACTIONS))
+        fb = 1.0 - draw(st.sampled_from(depth_fractions or DEPTH_FRACTIONS))
     ca = A.inner_point(np.array(draw(u3)), fa)
     cb = B.inner_point(np.array(draw(u3)), fb)
     sb = translate(sb, ca - cb)
@@ -109,7 +109,7 @@ def deep_scene(draw, kindA, kindB, rot_classes=None, margin=False,
 
 @st.composite
 def free_scene(draw, kindA, kindB, rot_classes=None, margin=False,
-               size_lo=1e-2, size_hi=1e2, **kw):
+               size_lo=1e-2, size_hi=1e2, depth_fractions=None, gaps=None, **kw):
     sa = draw(specs(kindA, rot_classes=rot_classes, margin=margin,
                     size_lo=size_lo, size_hi=size_hi, **kw))
     sb = draw(specs(kindB, rot_classes=rot_classes, margin=margin,
@@ -126,7 +126,7 @@ def free_scene(draw, kindA, kindB, rot_classes=None, margin=False,
 
 
 @st.composite
-def aligned_scene(draw, kindA, kindB, margin=False, **kw):
+def aligned_scene(draw, kindA, kindB, margin=False, depth_fractions=None, gaps=None, **kw):
     """signed-permutation rotations, lattice positions, integer-ish sizes"""
     isz = st.sampled_from([1.0, 2.0, 0.5, 4.0])
 
